@@ -80,8 +80,15 @@ def check_docs(chk, label, cases, obs, metas=None):
                 continue          # every $ref still resolves; that such a component holds no schema is C09's subject
             key = "C03|%s" % kind
             if kind == "duplicate-operationId":
-                # synthesized (no operationId annotation in the sources) or supplied by the user
-                key += "|synthesized-from-lossy-labels" if "operationId" not in text else "|with-user-supplied-ids"
+                # synthesized (no operationId annotation in the sources) or supplied by the user; for the pairs of URI patterns
+                # the key names how the two patterns differ (the known finding lists three ways - any other is new)
+                if "operationId" in text:
+                    key += "|with-user-supplied-ids"
+                elif metas and metas[i][2]:
+                    # the collision is the one Emit.tla's model of the label synthesis predicts for this pair: the known finding
+                    key += "|synthesized-from-lossy-labels"
+                else:
+                    key += "|not-predicted-by-the-label-model" if metas else "|in-a-generated-program"
             chk.violation(key, "%s: %s in the document of %r" % (label, what, text[:140]), {"files": hc["files"], "problem": [kind, what]})
     chk.notes.setdefault("documents_validated", {})[label] = n
     chk.cov["evaluations"] += n
@@ -109,7 +116,7 @@ def run(tier):
     for p in pairs:
         hc, _ = progs.harness_case(pair_program(p["u1"], p["u2"]), style=0, want={"doc": True})
         cases.append(hc)
-        metas.append((p["u1"], p["u2"]))
+        metas.append((p["u1"], p["u2"], p["collide"]))
     obs = run_oalv_parallel("compile", cases, jobs=8)
     # the specification's prediction of collisions must be the real one
     for p, hc, o in zip(pairs, cases, obs):
